@@ -19,7 +19,7 @@ use crate::util::{self, Comp};
 use std::path::{Path, PathBuf};
 
 /// markers (in the compression-level field of a base) for the special bases
-const PAYLOAD: u8 = 1;
+const PAYLOAD: u8 = 10; // .. 12: data shape
 const HUGE: u8 = 2;
 
 struct Damage {
@@ -73,17 +73,25 @@ pub fn run(ctx: &mut Ctx) {
         v.push((Mode::TwoFiles, Comp::None, false, true, 0));
         v
     };
+    // whether a flipped payload decodes "cleanly but short / long" depends on the data: three shapes
+    // (PAYLOAD + 0 words of a small vocabulary, + 1 runs of a few symbols, + 2 repeats of random
+    // fragments)
     bases.push((Mode::OneFile, Comp::Zstd(3), false, false, PAYLOAD));
+    bases.push((Mode::OneFile, Comp::Zstd(3), false, false, PAYLOAD + 1));
+    bases.push((Mode::OneFile, Comp::Zstd(1), false, false, PAYLOAD + 2));
     bases.push((Mode::OneFile, Comp::Lz4(2), false, false, PAYLOAD));
     bases.push((Mode::OneFile, Comp::None, false, false, HUGE));
     if !ctx.quick() {
-        bases.push((Mode::OneFile, Comp::Lzma(1), false, false, PAYLOAD));
-        bases.push((Mode::NoConcat, Comp::Zstd(5), false, false, PAYLOAD));
+        for shape in 0..3u8 {
+            bases.push((Mode::OneFile, Comp::Lzma(1), false, false, PAYLOAD + shape));
+            bases.push((Mode::NoConcat, Comp::Zstd(5), false, false, PAYLOAD + shape));
+            bases.push((Mode::TwoFiles, Comp::Lz4(1), false, false, PAYLOAD + shape));
+        }
         bases.push((Mode::NoConcat, Comp::None, false, false, HUGE));
     }
     let mut case = 0u64;
     for (mode, comp, exhaustive, big, kind) in bases {
-        let payload_base = kind == PAYLOAD;
+        let payload_base = (PAYLOAD..PAYLOAD + 3).contains(&kind);
         let huge = kind == HUGE;
         let my = case;
         case += 1;
@@ -124,7 +132,33 @@ pub fn run(ctx: &mut Ctx) {
             // inside the last one
             let lens = [3000 + crng.below(2000) as usize, 700 + crng.below(900) as usize, 40];
             for (it, l) in spec.items.iter_mut().zip(lens) {
-                it.data = crng.low_entropy(l);
+                it.data = match kind - PAYLOAD {
+                    0 => {
+                        const WORDS: [&str; 12] = ["jubako", "pack", "cluster", "entry", "value", "store", "index", "content", "manifest", "offset", "reader", "region"];
+                        let mut v = vec![];
+                        while v.len() < l {
+                            v.extend_from_slice(crng.pick(&WORDS).as_bytes());
+                            v.push(if crng.chance(1, 9) { b'\n' } else { b' ' });
+                        }
+                        v.truncate(l);
+                        v
+                    }
+                    1 => crng.low_entropy(l),
+                    _ => {
+                        let frags: Vec<Vec<u8>> = (0..6).map(|_| { let n = 3 + crng.below(20) as usize; crng.bytes(n) }).collect();
+                        let mut v = vec![];
+                        while v.len() < l {
+                            if crng.chance(1, 5) {
+                                let n = 1 + crng.below(6) as usize;
+                                v.extend(crng.bytes(n));
+                            } else {
+                                { let k = crng.below(frags.len() as u64) as usize; v.extend_from_slice(&frags[k]); }
+                            }
+                        }
+                        v.truncate(l);
+                        v
+                    }
+                };
                 it.hint = util::Hint::Yes;
             }
         } else if comp != Comp::None {
@@ -235,7 +269,7 @@ pub fn run(ctx: &mut Ctx) {
                 if payload_base {
                     if let Some(dec) = crate::cpdec::decode(pack) {
                         for c in dec.clusters.iter().filter(|c| c.comp != 0) {
-                            let cap = if ctx.quick() { 700 } else { 4000 };
+                            let cap = if ctx.quick() { 380 } else { 4000 };
                             let positions: Vec<usize> = if c.raw_size <= cap { (0..c.raw_size).collect() } else { (0..cap).map(|_| crng.below(c.raw_size as u64) as usize).collect() };
                             for rel in positions {
                                 let p = pk.origin + c.payload_start + rel;
@@ -253,7 +287,14 @@ pub fn run(ctx: &mut Ctx) {
         let keep_limit = 40; // damaged dirs kept for the model (sampled), all others are transient
         let mut kept = 0;
         let total = damages.len();
+        let mut timeouts = 0u32;
         for (di, d) in damages.iter().enumerate() {
+            // every timeout costs the supervisor's full wall-clock bound: once a base has shown a few
+            // reads that never return, the rest of its damages adds nothing
+            if timeouts >= 3 {
+                ctx.count("damages_skipped_after_repeated_timeouts");
+                continue;
+            }
             // model comparison on a sample (every one of them for errors would be thousands of dirs)
             let for_model = if big || huge { di % 40 == 0 } else if d.family == "payload-flip" { di % 150 == 0 } else { d.family != "flip" || !exhaustive || di % 9 == 0 };
             let dir = if for_model && kept < keep_limit * 50 { kept += 1; root.join(format!("m{}", di)) } else { scratch.clone() };
@@ -264,6 +305,9 @@ pub fn run(ctx: &mut Ctx) {
             std::fs::write(&target, &damaged).unwrap();
             let res = sup.run(&dir.join(&entry_name));
             let class = dmg::class_of(&res);
+            if class == "timeout" {
+                timeouts += 1;
+            }
             n += 1;
             ctx.count(&format!("{}:{}", d.family, class));
             let fname = files[d.file].file_name().unwrap().to_string_lossy().to_string();
